@@ -33,7 +33,26 @@ pub fn check(c: &Case) -> CheckResult {
     vensure!(k >= 1 && c.cfgs.iter().all(|c| c.valid()), "bad-case", "invalid case");
     let expected: Vec<Seq> = c.cfgs.iter().map(solo).collect::<Result<_, _>>()?;
     let trs: Vec<Translator> = c.cfgs.iter().map(Translator::new).collect();
-    let mut its: Vec<_> = c.cfgs.iter().map(|c| c.evaluator().into_iter()).collect();
+    // configurations with equal ranges are built from ONE shared Vec<HandRange> (parse once,
+    // evaluate on many flops / scopes); the solo references above come from fresh objects
+    let mut shared: Vec<(usize, Vec<espada::hand_range::HandRange>)> = vec![];
+    let build = |i: usize, shared: &mut Vec<(usize, Vec<espada::hand_range::HandRange>)>| {
+        let cfg = &c.cfgs[i];
+        let pos = shared.iter().position(|(j, _)| c.cfgs[*j].ranges == cfg.ranges);
+        let players = match pos {
+            Some(p) => &shared[p].1,
+            None => {
+                shared.push((i, cfg.ranges.iter().map(|r| r.to_espada()).collect()));
+                &shared.last().unwrap().1
+            }
+        };
+        let mut e = espada::evaluator::FlopExhaustiveEvaluator::new(&crate::cards::e_board(&cfg.flop), players);
+        if let Some((a, b, cc, d)) = cfg.scope {
+            e.scope(a, b, cc, d);
+        }
+        e.into_iter()
+    };
+    let mut its: Vec<_> = (0..k).map(|i| build(i, &mut shared)).collect();
     let mut got: Vec<Seq> = vec![vec![]; k];
     let mut done = vec![false; k];
     let mut switches_live = 0u64;
@@ -64,7 +83,7 @@ pub fn check(c: &Case) -> CheckResult {
             if got[i].len() > expected[i].len() || got[i][..] != expected[i][..got[i].len()] {
                 return Err(Fail::new("interleaving-differs", format!("evaluator {} of {}: the {} showdowns it yielded before being dropped are not a prefix of its solo sequence", i, k, got[i].len())));
             }
-            its[i] = c.cfgs[i].evaluator().into_iter();
+            its[i] = build(i, &mut shared);
             got[i].clear();
             done[i] = false;
             restarts += 1;
@@ -134,9 +153,17 @@ pub fn check(c: &Case) -> CheckResult {
     if restarts > 0 {
         cls |= 16;
     }
+    if (0..k).any(|i| (0..i).any(|j| c.cfgs[i].ranges == c.cfgs[j].ranges && !c.cfgs[i].ranges.is_empty() && {
+        let (mut a, mut b) = (c.cfgs[i].flop, c.cfgs[j].flop);
+        a.sort_unstable();
+        b.sort_unstable();
+        a != b
+    })) {
+        cls |= 64;
+    }
     Ok(Outcome::new(k >= 2 && switches_live > 0, fp_of(&format!("{:?}", c)), cls))
 }
-pub const CLASSES: &[&str] = &["context_switch_between_live_evaluators", "identical_evaluators", "same_inputs_different_scope", "hundred_plus_switches", "drop_and_restart_mid_run", "same_flop_cards_other_order"];
+pub const CLASSES: &[&str] = &["context_switch_between_live_evaluators", "identical_evaluators", "same_inputs_different_scope", "hundred_plus_switches", "drop_and_restart_mid_run", "same_flop_cards_other_order", "shared_ranges_on_different_flops"];
 
 pub fn scoped_cfg() -> impl Strategy<Value = Config> {
     (cfg_strategy(), proptest::option::weighted(0.6, window_strategy())).prop_map(|(mut c, w)| {
@@ -154,10 +181,17 @@ pub fn cfgs_strategy(max: usize) -> impl Strategy<Value = Vec<Config>> {
         for (src, _, w) in dups {
             let mut c = v[src as usize % v.len()].clone();
             // every other duplicate lists the same three flop cards in another order
-            match (src >> 4) % 6 {
+            match (src >> 4) % 8 {
                 1 => c.flop.swap(0, 1),
                 2 => c.flop.swap(1, 2),
                 3 => c.flop.rotate_left(1),
+                // the same ranges on an entirely different flop
+                4 | 5 => {
+                    let f0 = (c.flop[0] as usize + 7 + (src as usize >> 2)) % 52;
+                    let mut f = [f0 as u8, ((f0 + 13) % 52) as u8, ((f0 + 30) % 52) as u8];
+                    f.rotate_left((src % 3) as usize);
+                    c.flop = f;
+                }
                 _ => {}
             }
             if let Some((a, b)) = w {
@@ -250,7 +284,7 @@ pub fn heavy_thread_strategy() -> impl Strategy<Value = ThreadCase> {
 }
 
 pub fn run(ctx: &mut Ctx) {
-    ctx.rule = "in-process: 1-6 live evaluators over small generated configurations (some identical, some differing only by scope or by the order of the three flop cards), a generated schedule of (evaluator, burst) steps (single steps, short bursts, long bursts, finish-one-then-resume, dropping an iterator in mid-run and starting an identically constructed one) followed by a round-robin drain; each evaluator's interleaved fingerprint sequence must equal, element by element, the sequence of an identically constructed evaluator iterated alone. Thread part (isolated binary, one process per case): 1-19 evaluators each drained on its own thread behind a barrier, evaluators built on the main thread and moved, ranges shared through Arc, showdowns sent back through a channel, iterators advanced on one thread and handed over to another; 1-3 rounds; stream heavy_thread_rounds: 4-16 evaluators over 6-24-combo two-player ranges on different flops (up to 400k slots each) drained simultaneously. Non-trivial = >= 2 evaluators with >= 1 context switch between two non-exhausted evaluators (threads: >= 2 concurrent evaluators); distinct by case.".into();
+    ctx.rule = "in-process: 1-6 live evaluators over small generated configurations (some identical, some differing only by scope, by the order of the three flop cards, or using the same ranges on another flop; evaluators with equal ranges are built from one shared Vec<HandRange>, the solo references from fresh objects), a generated schedule of (evaluator, burst) steps (single steps, short bursts, long bursts, finish-one-then-resume, dropping an iterator in mid-run and starting an identically constructed one) followed by a round-robin drain; each evaluator's interleaved fingerprint sequence must equal, element by element, the sequence of an identically constructed evaluator iterated alone. Thread part (isolated binary, one process per case): 1-19 evaluators each drained on its own thread behind a barrier, evaluators built on the main thread and moved, ranges shared through Arc, showdowns sent back through a channel, iterators advanced on one thread and handed over to another; 1-3 rounds; stream heavy_thread_rounds: 4-16 evaluators over 6-24-combo two-player ranges on different flops (up to 400k slots each) drained simultaneously. Non-trivial = >= 2 evaluators with >= 1 context switch between two non-exhausted evaluators (threads: >= 2 concurrent evaluators); distinct by case.".into();
     ctx.assumptions = vec![
         "OS thread schedules are only sampled; the deterministic single-thread interleavings are the deciding step for shared state through statics or thread-locals".into(),
         "Send/Sync of FlopExhaustiveEvaluator, its iterator, HandRange, Showdown, HandRangeToken, MadeHand, CardPair is a compile-time by-product of building c15_threads".into(),
@@ -268,6 +302,7 @@ pub fn run(ctx: &mut Ctx) {
     ctx.require_class("interleavings", "identical_evaluators", cases / 10);
     ctx.require_class("interleavings", "drop_and_restart_mid_run", cases / 4);
     ctx.require_class("interleavings", "same_flop_cards_other_order", cases / 20);
+    ctx.require_class("interleavings", "shared_ranges_on_different_flops", cases / 20);
     ctx.require_class("interleavings", "same_inputs_different_scope", cases / 20);
     if std::env::var("C15_COMPILE_FAIL").is_err() {
         if !std::path::Path::new(&threads_bin()).exists() {
